@@ -372,17 +372,36 @@ def run_span_checks(ck, span_checks):
 
 # minimised past failures and the witnesses of the known findings: run first on every run
 CORPUS = [
-    ("\n a", {"syntax": "sass"}),                      # F1 panic@parse/sass.rs:201
-    ("@import", {"syntax": "css"}),                    # F2 panic@parse/stylesheet.rs:1017
-    ("@-moz-document", {"syntax": "css"}),             # F3 panic@parse/stylesheet.rs:1128
-    ("a\n /*\n", {"syntax": "sass"}),                  # F4 panic@parse/sass.rs:295
-    ('a{b:selector-extend("a", ">", "b")}', {"syntax": "scss"}),   # F5 panic@selector/complex.rs:340
+    # C01-F1..F6: found by this check, FIXED in /repo (a26e908, 4c5b152, 972d06b, 5b804c2, 5c45d4b, ce10f52):
+    # regression cases, must give ok/err now
+    ("\n a", {"syntax": "sass"}),                      # F1 was panic@parse/sass.rs:201
+    ("\n\t \n      @while\n", {"syntax": "sass"}),      # F1
+    ("@import", {"syntax": "css"}),                    # F2 was panic@parse/stylesheet.rs:1017
+    ("@import ]'\n", {"syntax": "css"}),               # F2
+    ("@-moz-document", {"syntax": "css"}),             # F3 was panic@parse/stylesheet.rs:1128
+    ("a{@-moz-document", {"syntax": "css"}),           # F3
+    ("a\n /*\n", {"syntax": "sass"}),                  # F4 was panic@parse/sass.rs:295
+    ("a\n  /*  \r*/ color: red;\n\n", {"syntax": "sass"}),   # F4
+    ('a{b:selector-extend("a", ">", "b")}', {"syntax": "scss"}),   # F5 was panic@selector/complex.rs:340
+    ('a{b:selector-replace("a", ">", "b")}', {"syntax": "scss"}),  # F5
+    ('a{b:is-superselector("a", ":is(>)")}', {"syntax": "scss"}),  # F5
     (':is(a,>){@extend a}', {"syntax": "scss"}),       # F5, through @extend
-    ('a{b:simple-selectors(">")}', {"syntax": "scss"}),            # F6 panic@builtin/functions/selector.rs:44
+    ('a{b:simple-selectors(">")}', {"syntax": "scss"}),            # F6 was panic@builtin/functions/selector.rs:44
+    ('@use "sass:selector";a{b:selector.simple-selectors("> a")}', {"syntax": "scss"}),   # F6
+    # found by other checks, NOT fixed yet (known findings keyed by panic site):
+    ('a{b:selector-replace("a.x", ".x", "b")}', {"syntax": "scss"}),                                        # X1
+    ('.y{x:y} @media screen{.y{@extend .y}} @media print{.y#i{@extend .y}}', {"syntax": "scss"}),            # X2
     ("/]/*#*[", {"syntax": "sass"}),                   # D2 (fixed): looped forever
     ("a{b:clamp(1, 2px, 3em)}", {"syntax": "scss"}),   # D1 (fixed): panicked in Number::convert
     ("$x: \"\"; a#{$x}\u00e9\u00e9\u00e9[ {b: c}", {"syntax": "scss"}),   # D19 (fixed): codemap char boundary
     ("@media screen{a{@extend %p}} @media print{a{@extend %p}} %p{b:c}", {"syntax": "scss"}),  # D17 (fixed)
+]
+
+CORPUS_FILES = [
+    # X3 / X4: module map views (utils/map_view.rs), not fixed yet
+    ({"_mid.scss": '@forward "a" as p-* with ($z: 7 !default);', "_a.scss": "$z: 1 !default; $x: 2 !default;",
+      "main.scss": '@use "mid" with ($p-x: 1);'}, "main.scss"),
+    ({"_mid.scss": '@forward "a";', "_a.scss": "$z: 1;", "main.scss": '@use "mid"; mid.$nope: 1;'}, "main.scss"),
 ]
 
 OPTION_SETS = [{}, {"style": "compressed"}, {"unicode": False}, {"charset": False}, {"style": "compressed", "unicode": False, "charset": False}]
@@ -407,6 +426,8 @@ def search_jobs(ck, tier, cases):
 
     for src, o in CORPUS:
         add("corpus-of-failures", src, o)
+    for files, entry in CORPUS_FILES:
+        jobs.append(("corpus-of-failures", compile_job(None, files=files, entry=entry, quiet=True)))
     # golden corpus with its own options and under every syntax/style/option set
     pick = cases if not quick else rng.sample(cases, 500)
     for c in pick:
@@ -614,7 +635,7 @@ def run(tier, seed):
         w = k.get("witness")
         if not w:
             continue
-        a = pool.map([compile_job(w["input"], **w.get("options", {}))], timeout=5.0)[0]
+        a = pool.map([compile_job(w.get("input"), files=w.get("files"), entry=w.get("entry"), **w.get("options", {}))], timeout=5.0)[0]
         if tag_of_answer(a) == k["match"].get("class"):
             ck.hist("known-finding-witness-still-fails")
         else:
